@@ -53,7 +53,7 @@ func c20(c *Ctx) {
 		if cursorFA != nil {
 			cf := fieldVar(cursorFA.X.Type(), cursorFA.Field)
 			for _, f := range stubFns {
-				if f.Name() == "init" || strings.HasPrefix(f.Name(), "init#") {
+				if isPkgInit(f) {
 					continue
 				}
 				eachInstr(f, func(i ssa.Instruction) {
@@ -137,7 +137,7 @@ func c20(c *Ctx) {
 			}
 		})
 		for _, f := range stubFns {
-			if !strings.HasPrefix(f.Name(), "init") {
+			if !isPkgInit(f) {
 				continue
 			}
 			eachInstr(f, func(i ssa.Instruction) {
